@@ -70,7 +70,14 @@ const (
 	shAlias
 )
 
-type nrule struct{ name, text string }
+// nrule: one AddRule(name, enum object) call.  obj > 0: the enum OBJECT number
+// obj of the round — one object per copy of the round's objects, added to
+// every type / root that names it (stream "broken"); obj == 0: a fresh object.
+type nrule struct {
+	name, text string
+	obj        int
+	recipe     string // how to write text down, if it is long
+}
 
 // tspec: one user-type object of a round.
 type tspec struct {
@@ -84,6 +91,14 @@ type tspec struct {
 	value string   // scalar leaves: a literal that belongs to the type ("" otherwise)
 	anon  bool     // its own text has or rule-sets / or shortcuts: it owns anonymous types
 	allOf bool
+
+	// stream "broken" (broken.go)
+	recipe  string   // how to write text down (a loop), for the replay description
+	defect  string   // "" = sound; else the kind of error only the check of a ROOT finds in it
+	sound   string   // the text without the defect ("" when there is none)
+	members int      // members of the object / array text
+	late    bool     // the defect sits in the second half of the text
+	refs    []*tspec // types it names without owning them (the root has to add them)
 }
 
 type forest struct {
@@ -188,7 +203,7 @@ func (g *textGen) ownField(indent string) field {
 	case x < 11:
 		e := nestedEnums[r.Intn(len(nestedEnums))]
 		name := fmt.Sprintf("@e%s%d", g.tag, len(g.rules))
-		g.rules = append(g.rules, nrule{name, e.text})
+		g.rules = append(g.rules, nrule{name: name, text: e.text})
 		return field{g.key("e") + ": " + e.example, "{enum: " + name + "}"}
 	case x < 13:
 		return field{g.key("p") + ": 1", "{min: 0}"}
@@ -282,7 +297,7 @@ func (fg *forestGen) leafText(g *textGen) (text string, shape int, value string)
 	case x < 6:
 		e := nestedEnums[r.Intn(len(nestedEnums))]
 		name := fmt.Sprintf("@e%s", g.tag)
-		g.rules = append(g.rules, nrule{name, e.text})
+		g.rules = append(g.rules, nrule{name: name, text: e.text})
 		return e.example + " // {enum: " + name + "}", shScalar, e.example
 	case x < 7:
 		return `1 // {min: 0}`, shScalar, `1`
@@ -426,10 +441,17 @@ func (f *forest) hasAllOf() bool {
 	return false
 }
 
-func genRoots(r *rand.Rand, f *forest) []*nroot {
+// genRoots: 2..6 roots over the forest.  broken (stream "broken"): most roots
+// are set up before the goroutines start, so that their first compiles begin
+// together, and a root that adds a type adds (nine times out of ten) the types
+// it names without owning them as well.
+func genRoots(r *rand.Rand, f *forest, broken bool) []*nroot {
 	var roots []*nroot
 	for i, n := 0, 2+r.Intn(5); i < n; i++ {
 		rt := &nroot{id: fmt.Sprintf("root%d", i), pre: r.Intn(3) == 0, gs: []int{1, 1, 1, 2, 2, 4}[r.Intn(6)]}
+		if broken {
+			rt.pre = r.Intn(5) > 0
+		}
 		g := &textGen{r: r, tag: fmt.Sprintf("r%d_", i)}
 		var ts []*tspec
 		for j, t := range f.tops {
@@ -448,6 +470,19 @@ func genRoots(r *rand.Rand, f *forest) []*nroot {
 			}
 			if !dup {
 				ts = append(ts, m)
+			}
+		}
+		if broken {
+			for _, t := range append([]*tspec{}, ts...) {
+				for _, ref := range t.refs {
+					dup := false
+					for _, o := range ts {
+						dup = dup || o == ref
+					}
+					if !dup && r.Intn(10) > 0 {
+						ts = append(ts, ref)
+					}
+				}
 			}
 		}
 		// a private copy instead of the shared object — only of an object that has nothing in common with the
@@ -522,12 +557,32 @@ func overlap(a, b *tspec) bool {
 // ---------------------------------------------------------------- objects
 
 // instance: the objects of one copy of (a part of) the forest.
-type instance map[*tspec]*jschema.Schema
+type instance struct {
+	types map[*tspec]*jschema.Schema
+	enums map[int]*enum.Enum
+}
+
+func newInstance() *instance {
+	return &instance{types: map[*tspec]*jschema.Schema{}, enums: map[int]*enum.Enum{}}
+}
+
+// rule: the enum object of an AddRule call.
+func (in *instance) rule(rl nrule) *enum.Enum {
+	if rl.obj == 0 {
+		return enum.New(rl.name, rl.text)
+	}
+	if e, ok := in.enums[rl.obj]; ok {
+		return e
+	}
+	e := enum.New(rl.name, rl.text)
+	in.enums[rl.obj] = e
+	return e
+}
 
 // build creates t's object and, first, everything it owns; an object owned
 // twice is created once.  The results of the AddRule / AddType calls go to out.
-func (in instance) build(t *tspec, out *[]string) *jschema.Schema {
-	if s, ok := in[t]; ok {
+func (in *instance) build(t *tspec, out *[]string) *jschema.Schema {
+	if s, ok := in.types[t]; ok {
 		return s
 	}
 	var kids []*jschema.Schema
@@ -536,20 +591,21 @@ func (in instance) build(t *tspec, out *[]string) *jschema.Schema {
 	}
 	s := jschema.New(t.name, t.text)
 	for _, rl := range t.rules {
-		rl := rl
-		*out = append(*out, vh.Recover(func() string { return c11.CanonErr(s.AddRule(rl.name, enum.New(rl.name, rl.text))) }))
+		e := in.rule(rl)
+		name := rl.name
+		*out = append(*out, vh.Recover(func() string { return c11.CanonErr(s.AddRule(name, e)) }))
 	}
 	for i, k := range t.kids {
 		i, k := i, k
 		*out = append(*out, vh.Recover(func() string { return c11.CanonErr(s.AddType(k.name, root.Schema(kids[i]))) }))
 	}
-	in[t] = s
+	in.types[t] = s
 	return s
 }
 
 // setupRoot creates the root over the objects of sh (built on demand) and
 // private copies.
-func setupRoot(rt *nroot, sh instance, r *rand.Rand) (*jschema.Schema, []string) {
+func setupRoot(rt *nroot, sh *instance, r *rand.Rand) (*jschema.Schema, []string) {
 	var out []string
 	yield := func() {
 		if r != nil && r.Intn(2) == 0 {
@@ -558,11 +614,12 @@ func setupRoot(rt *nroot, sh instance, r *rand.Rand) (*jschema.Schema, []string)
 	}
 	s := jschema.New(rt.id, rt.text)
 	for _, rl := range rt.rules {
-		rl := rl
+		e := sh.rule(rl)
+		name := rl.name
 		yield()
-		out = append(out, vh.Recover(func() string { return c11.CanonErr(s.AddRule(rl.name, enum.New(rl.name, rl.text))) }))
+		out = append(out, vh.Recover(func() string { return c11.CanonErr(s.AddRule(name, e)) }))
 	}
-	fresh := instance{}
+	fresh := newInstance()
 	for _, a := range rt.adds {
 		var obj *jschema.Schema
 		var sink []string
@@ -593,8 +650,11 @@ func describeTypes(ts []*tspec) string {
 			walk(k)
 		}
 		d := fmt.Sprintf("%s := jschema.New(%q, %q)", t.name[1:], t.name, t.text)
+		if t.recipe != "" {
+			d = fmt.Sprintf("%s := jschema.New(%q, %s)", t.name[1:], t.name, t.recipe)
+		}
 		for _, rl := range t.rules {
-			d += fmt.Sprintf("; %s.AddRule(%q, enum %q)", t.name[1:], rl.name, rl.text)
+			d += fmt.Sprintf("; %s.AddRule(%q, %s)", t.name[1:], rl.name, rl.describe())
 		}
 		for _, k := range t.kids {
 			d += fmt.Sprintf("; %s.AddType(%q, %s)", t.name[1:], k.name, k.name[1:])
@@ -607,10 +667,21 @@ func describeTypes(ts []*tspec) string {
 	return strings.Join(sb, "; ")
 }
 
+func (rl nrule) describe() string {
+	text := fmt.Sprintf("%q", rl.text)
+	if rl.recipe != "" {
+		text = rl.recipe
+	}
+	if rl.obj > 0 {
+		return fmt.Sprintf("enum%d /* ONE object enum.New(%q, %s) for all who add enum%d */", rl.obj, rl.name, text, rl.obj)
+	}
+	return "enum " + text
+}
+
 func (rt *nroot) describe() string {
 	d := fmt.Sprintf("%s := jschema.New(%q, %q)", rt.id, rt.id, rt.text)
 	for _, rl := range rt.rules {
-		d += fmt.Sprintf("; %s.AddRule(%q, enum %q)", rt.id, rl.name, rl.text)
+		d += fmt.Sprintf("; %s.AddRule(%q, %s)", rt.id, rl.name, rl.describe())
 	}
 	for _, a := range rt.adds {
 		how := "the shared object"
@@ -736,7 +807,7 @@ func mutateDocs(r *rand.Rand, example string) []string {
 // nestedOracle: rt over a fresh forest, sequentially.
 func nestedOracle(rt *nroot, r *rand.Rand) target {
 	w := want{ops: map[string]string{}}
-	s, setupRes := setupRoot(rt, instance{}, nil)
+	s, setupRes := setupRoot(rt, newInstance(), nil)
 	w.setup = setupRes
 	example := ""
 	for _, code := range []int{opCheck, opLen, opExample, opAST, opUsed} {
@@ -744,6 +815,16 @@ func nestedOracle(rt *nroot, r *rand.Rand) target {
 		w.ops[opKey(code, 0)] = res
 		if code == opExample {
 			example = string(b)
+		}
+	}
+	if example == "" && w.ops[opKey(opCheck, 0)] != "ok" {
+		// a root that does not compile gives no example: take the one of the same root over the sound variants of
+		// its types (stream broken) — documents the sound root accepts must be turned down with the root's error
+		if twin := soundTwin(rt); twin != nil {
+			ts, _ := setupRoot(twin, newInstance(), nil)
+			if _, b, _ := observe(ts, opExample, ""); b != nil {
+				example = string(b)
+			}
 		}
 	}
 	docs := mutateDocs(r, example)
@@ -760,7 +841,7 @@ func nestedOracle(rt *nroot, r *rand.Rand) target {
 // disagrees with the first run depends on call history or on sequential
 // sharing — not C12's business (C11) — and is left out of the round.
 func sequentialAgain(roots []*nroot, targets []target) (disagree []string) {
-	seq := instance{}
+	seq := newInstance()
 	disagree = make([]string, len(roots)) // "" = the runs agree
 	for i, rt := range roots {
 		t := targets[i]
@@ -790,24 +871,28 @@ const (
 	nestedKnownSalt = int64(12800000)
 )
 
-func nestedRand(round int, known bool) (*rand.Rand, int64) {
+func nestedRand(round int, stream string) (*rand.Rand, int64) {
 	salt := nestedSalt
-	if known {
+	switch stream {
+	case "known":
 		salt = nestedKnownSalt
+	case "broken":
+		salt = brokenSalt
 	}
 	return vh.NewRand(salt + int64(round)*1000), salt + int64(round)*1000
 }
 
 // genNested: the scenario of a round (a function of VERIF_SEED and the round
 // number only, so that the parent can describe the round a report came from).
-func genNested(round int, known bool) (*rand.Rand, *forest, []*nroot, string) {
-	r, seed := nestedRand(round, known)
-	f := genForest(r, known)
-	roots := genRoots(r, f)
-	stream := "nested"
-	if known {
-		stream = "known"
+func genNested(round int, stream string) (*rand.Rand, *forest, []*nroot, string) {
+	r, seed := nestedRand(round, stream)
+	var f *forest
+	if stream == "broken" {
+		f = genBrokenForest(r)
+	} else {
+		f = genForest(r, stream == "known")
 	}
+	roots := genRoots(r, f, stream == "broken")
 	where := fmt.Sprintf("nested round %d (vh.NewRand(%d); replay: VERIF_SEED=%d vhrace c12-concurrent --child %s --round %d)", round, seed, vh.Seed(), stream, round)
 	return r, f, roots, where
 }
@@ -815,12 +900,12 @@ func genNested(round int, known bool) (*rand.Rand, *forest, []*nroot, string) {
 func nestedMarkID(round int) string { return fmt.Sprintf("nested-round-%d", round) }
 
 // DescribeNestedMark turns a mark id back into the scenario text.
-func describeNestedMark(id string, known bool) string {
+func describeNestedMark(id string, stream string) string {
 	var round int
 	if _, err := fmt.Sscanf(id, "nested-round-%d", &round); err != nil {
 		return id
 	}
-	_, f, roots, where := genNested(round, known)
+	_, f, roots, where := genNested(round, stream)
 	return where + ": " + describeNested(f, roots)
 }
 
@@ -836,12 +921,13 @@ type prepared struct {
 	scenario string
 	targets  []target
 	live     []int
+	stream   string
 }
 
-func prepareNestedRound(col *collector, round int, known bool) *prepared {
-	r, f, roots, where := genNested(round, known)
-	p := &prepared{round: round, r: r, f: f, roots: roots, where: where}
-	if known && !f.hasAllOf() {
+func prepareNestedRound(col *collector, round int, stream string) *prepared {
+	r, f, roots, where := genNested(round, stream)
+	p := &prepared{round: round, r: r, f: f, roots: roots, where: where, stream: stream}
+	if stream == "known" && !f.hasAllOf() {
 		col.stat("nested_known_round_without_allOf_skipped")
 		p.skip = true
 		return p
@@ -852,6 +938,8 @@ func prepareNestedRound(col *collector, round int, known bool) *prepared {
 	for i, rt := range roots {
 		p.targets[i] = nestedOracle(rt, r)
 		p.targets[i].setup = p.scenario + " ||| this root: " + rt.id
+		// stream broken: the roots' FIRST compiles are what has to overlap
+		p.targets[i].firstCompile = stream == "broken"
 	}
 	for i, why := range sequentialAgain(roots, p.targets) {
 		if why != "" {
@@ -878,7 +966,7 @@ func runNestedRound(col *collector, p *prepared) {
 	defer racekit.Mark(false, nestedMarkID(round))
 
 	// the shared objects: everything any root adds, built once
-	sh := instance{}
+	sh := newInstance()
 	var sink []string
 	for _, rt := range roots {
 		for _, a := range rt.adds {
@@ -996,8 +1084,12 @@ func runNestedRound(col *collector, p *prepared) {
 			}
 		}
 	}
+	nontrivial := deepShared && okRoots >= 2
+	if p.stream == "broken" {
+		nontrivial = brokenStats(col, roots, live, targets)
+	}
 	col.mu.Lock()
-	col.res.Case(scenario, deepShared && okRoots >= 2)
+	col.res.Case(scenario, nontrivial)
 	col.res.Stats[fmt.Sprintf("nested_roots_%d", len(live))]++
 	col.res.Stats[fmt.Sprintf("nested_goroutines_%02d", total)]++
 	col.res.Stats[fmt.Sprintf("nested_shared_chain_depth_%d", maxDepth)]++
@@ -1023,7 +1115,7 @@ func errClass(res string) string {
 // the one that produces the report (confirmNested).
 const nestedInFlight = 3
 
-func nestedChild(col *collector, stream string, known bool, rounds []int, inFlight int) {
+func nestedChild(col *collector, stream string, rounds []int, inFlight int) {
 	// scenarios and oracles are prepared ahead, in order, by a few workers
 	preps := make([]chan *prepared, len(rounds))
 	for i := range preps {
@@ -1042,7 +1134,7 @@ func nestedChild(col *collector, stream string, known bool, rounds []int, inFlig
 		go func() {
 			for i := range tickets {
 				ahead <- struct{}{}
-				preps[i] <- prepareNestedRound(col, rounds[i], known)
+				preps[i] <- prepareNestedRound(col, rounds[i], stream)
 			}
 		}()
 	}
@@ -1062,7 +1154,7 @@ func nestedChild(col *collector, stream string, known bool, rounds []int, inFlig
 					<-ahead
 				case <-time.After(90 * time.Second):
 					atomic.StoreInt32(&stop, 1)
-					col.diff(vh.Diff{Component: "C12-result", Input: describeNestedMark(nestedMarkID(rounds[i]), known) + "; the sequential oracle run (or one before it)", Impl: "TIMEOUT", Model: "every call returns"})
+					col.diff(vh.Diff{Component: "C12-result", Input: describeNestedMark(nestedMarkID(rounds[i]), stream) + "; the sequential oracle run (or one before it)", Impl: "TIMEOUT", Model: "every call returns"})
 					return
 				}
 				done := make(chan struct{})
@@ -1074,7 +1166,7 @@ func nestedChild(col *collector, stream string, known bool, rounds []int, inFlig
 				case <-done:
 				case <-time.After(60 * time.Second):
 					atomic.StoreInt32(&stop, 1)
-					col.diff(vh.Diff{Component: "C12-result", Input: describeNestedMark(nestedMarkID(rounds[i]), known), Impl: "TIMEOUT", Model: "every call returns"})
+					col.diff(vh.Diff{Component: "C12-result", Input: describeNestedMark(nestedMarkID(rounds[i]), stream), Impl: "TIMEOUT", Model: "every call returns"})
 					return
 				}
 			}
